@@ -58,6 +58,7 @@ def run(ctx):
         ctx.report(clause, "history=%s out=%s changed=%s" % ([(e.get("kind") or e.get("what") or e.get("opts")) for e in meta[tid]["history"]],
                                                              ev.get("out"), changed[:3]),
                    {"meta": meta[tid], "event": l, "write_event": {k: v for k, v in ev.items()}})
+    ctx.require_ops("Trace_Write", ["origin", "edit", "write"])
     ctx.sample({"history": meta[0]["history"], "last_write_out": traces[0][-1]["out"]})
     ctx.sample({"history": meta[-1]["history"]})
     ctx.assumptions += [
